@@ -400,6 +400,17 @@ class BaseSubscription:
             t.duration * 1000,
         )
         if matched and not self.closed:
+            # a live push passes the output validator like a stored result
+            check_output = self.storage.check_output
+            if check_output and not check_output(
+                event,
+                {
+                    "config": Config,
+                    "client_id": self.client_id,
+                    "auth_token": self.auth_token,
+                },
+            ):
+                return
             await self.queue.put((self.sub_id, event))
 
     def check_event(self, event: Event, filters: list):
